@@ -205,7 +205,8 @@ def _decorate(draw, prog, feats):
         if 'retry' in feats and draw(st.integers(0, 3)) == 0:
             n['attempts'] = draw(st.sampled_from([None, 1, 2, 2, 3, 4]))
             n['delay'] = draw(st.sampled_from([None, None, 0, 0.5, 1, 2.5]))
-            n['exceptions'] = draw(st.sampled_from([None, None, ['ErrA'], ['ErrA', 'ErrB'], ['ErrB'], ['ErrC', 'ErrA']]))
+            n['exceptions'] = draw(st.sampled_from([None, None, ['ErrA'], ['ErrA', 'ErrB'], ['ErrB'], ['ErrC', 'ErrA'],
+                                                    ['ErrA2'], ['NodeFail'], ['ErrA'], ['ErrB', 'ErrA2']]))
         if 'default' in feats and draw(st.integers(0, 4)) == 0:
             n['use_default'] = True
         if n.get('rec_dest') and 'default' in feats and draw(st.booleans()):
@@ -367,7 +368,7 @@ def variants(draw, program, feats=ALL_FEATS, x=None, p_fail=9):
     for _, _, m in S.rec_marks(program):
         rec_max[m[2]] = m[3]
     var = {'x': draw(st.integers(0, 3)) if x is None else x, 'nodes': {}}
-    outcomes_pool = ['ErrA'] * 6 + ['ErrB'] * 2 + ['ErrC'] + (['Fatal'] if 'fatal' in feats else [])
+    outcomes_pool = ['ErrA'] * 5 + ['ErrA2'] * 2 + ['ErrB'] * 2 + ['ErrC'] + (['Fatal'] if 'fatal' in feats else [])
     for n in program['nodes']:
         beh = {}
         nid = n['id']
